@@ -63,3 +63,17 @@ try:
     print("generated", "CmdLine.v")
 except Exception as e:  # ./check C09 reports the broken tie itself; do not stop the other translators
     print("CmdLine.v: translator failed (%s: %s); file left as it was" % (type(e).__name__, e))
+# C07: filters.py (flags, supports, impulse/frequency response formulas, gammatone support search) + config.py + util.py -> C07Filters.v
+import c07_filters  # noqa: E402
+try:
+    c07_filters.main(os.path.join(C.SRC, "filters.py"), os.path.join(C.SRC, "config.py"), os.path.join(C.COQ, "gen", "C07Filters.v"))
+    print("generated", "C07Filters.v")
+except Exception as e:  # ./check C07 reports the broken tie itself; do not stop the other translators
+    print("C07Filters.v: translator failed (%s: %s); file left as it was" % (type(e).__name__, e))
+# C06: filters.py (index arithmetic of get_frequency_response / get_truncated_response of the four banks) -> C06Index.v
+import filters_c06  # noqa: E402
+try:
+    filters_c06.main(os.path.join(C.SRC, "filters.py"), os.path.join(C.COQ, "gen", "C06Index.v"))
+    print("generated", "C06Index.v")
+except Exception as e:  # ./check C06 reports the broken tie itself; do not stop the other translators
+    print("C06Index.v: translator failed (%s: %s); file left as it was" % (type(e).__name__, e))
